@@ -64,7 +64,10 @@ func init() {
 			}
 		}
 		// chains
-		wraps := []string{"@", "<%= for (z) in [1] { %>@<% } %>", "<% let w = fn() { %>@<% } %><%= w() %>", "<%= blk() { %>@<% } %>", "<%= if (true) { %>@<% } %>"}
+		wraps := []string{"@", "<%= for (z) in [1] { %>@<% } %>", "<% let w = fn() { %>@<% } %><%= w() %>", "<%= blk() { %>@<% } %>", "<%= if (true) { %>@<% } %>",
+			// the chain nested in an else-if block and in the else block of an outer chain (whose own later branches must not run)
+			"<%= if (false) { %>o1<% } else if (true) { %>@<% } else if (true) { %>o3<% } else { %>o4<% } %>", "<%= if (false) { %>o1<% } else { %>@<% } %>",
+			"<%= if (false) { %>o1<% } else if (false) { %>o2<% } else if (true) { %><%= for (z) in [1] { %>@<% } %><% } else if (true) { %>o4<% } %>"}
 		maxN := 4
 		if e.Thorough() {
 			maxN = 5
